@@ -169,8 +169,15 @@ def body_clones(env):
     grav = env.params.get('gravity', True)
     with env.patch(MODS):
         # the gravity option goes through the real constructors (and the real clone)
+        gridopt = env.params.get('grid')
         if kind == 'rodded':
-            t = fixtures.make_rodded(2, 1, gravity=grav)
+            sg = None
+            if gridopt:
+                # spacer grids at 0.3 and 0.6 m given either by a loss coefficient or by a correlation: the configuration
+                # must survive the real clone()
+                sg = {'axial_positions': [0.3, 0.6], 'loss_coeff': 1.7 if gridopt == 'loss_coeff' else None, 'solidity': None,
+                      'corr': None if gridopt == 'loss_coeff' else gridopt, 'corr_coeff': None}
+            t = fixtures.make_rodded(2, 1, gravity=grav, spacer_grid=sg)
         else:
             t = fixtures.make_unrodded(kind, gravity=grav)
         A, B = t.clone(new_flowrate=1.0), t.clone(new_flowrate=2.0)
@@ -182,19 +189,27 @@ def body_clones(env):
             reg.coolant = cool
             if kind == 'rodded':
                 reg.coolant_int_params = dict(reg.coolant_int_params, ff=ff, vel=vel)
-                reg._spacer_grid = None
+                if gridopt:
+                    reg.coolant_int_params['grid_loss_coeff'] = env.nonneg('K_' + nm, hi=1e3)
                 de = float(reg.bundle_params['de'])
             else:
                 reg.coolant_params = dict(reg.coolant_params, ff=ff, vel=vel)
                 de = float(reg._params['de']) if reg._rr_equiv is None else float(reg._rr_equiv.bundle_params['de'])
             regs.append((nm, reg, rho, ff, vel, de))
-        dz = [env.pos('dz%d' % i, hi=1) for i in range(2)]
+        dz = [env.pos('dz%d' % i, hi=1) for i in range(2)] if not gridopt else [0.4, 0.3]
         z = [dz[0], dz[0] + dz[1]]
         for i in range(2):
             for nm, reg, rho, ff, vel, de in regs:
                 reg.calculate_pressure_drop(z[i], dz[i])
         L = dz[0] + dz[1]
         for nm, reg, rho, ff, vel, de in regs:
+            if gridopt:
+                env.eq('clone %s: both spacer grids of the template counted, each K rho v^2 / 2' % nm, reg._pressure_drop['spacer_grid'],
+                       2 * reg.coolant_int_params['grid_loss_coeff'] * rho * vel * vel / 2.0, tol=1e-9, key='clone_lost_spacer_grids')
+                env.holds('clone %s: spacer-grid set-up of the template kept (positions, loss coefficient / correlation)' % nm,
+                          reg.corr_constants.get('grid', {}).get('z') == [0.3, 0.6]
+                          and reg.corr_constants['grid'].get('loss_coeff') == t.corr_constants['grid'].get('loss_coeff')
+                          and ('grid' in reg.corr) == ('grid' in t.corr), key='clone_lost_spacer_grids')
             env.eq('clone %s: friction loss is its own f L rho v^2 / (2 De)' % nm, reg._pressure_drop['friction'],
                    ff * L * rho * vel * vel / de / 2.0, tol=1e-9, key='clones_share_pressure_drop')
             env.eq('clone %s: gravity loss is its own rho g L (0 without the gravity option)' % nm, reg._pressure_drop['gravity'],
@@ -264,6 +279,9 @@ def instances(tier):
     for kind in ('simple', '6node', 'rodded'):
         for grav in (True, False):
             inst.append(dict(label='clones[%s,gravity=%s]' % (kind, grav), body=body_clones, params={'kind': kind, 'gravity': grav}))
+    for g in ('loss_coeff', 'REH', 'CDD'):
+        inst.append(dict(label='clones[rodded,gravity=False,spacer grids by %s]' % g, body=body_clones,
+                         params={'kind': 'rodded', 'gravity': False, 'grid': g}))
     return inst
 
 
